@@ -61,7 +61,7 @@ func genC19() *rapid.Generator[c19Case] {
 		for i := 0; i < n; i++ {
 			c.Rows = append(c.Rows, drawRow(t, spec))
 		}
-		c.Mode = pick(t, "mode", []string{"helpers+fs", "metastore", "metastore", "merge"})
+		c.Mode = pick(t, "mode", []string{"helpers+fs", "metastore", "metastore", "merge", "postmerge"})
 		if chance(t, "hostile", 45) {
 			k := rapid.IntRange(1, 2).Draw(t, "nhostile")
 			for i := 0; i < k; i++ {
@@ -565,6 +565,75 @@ func runC19(c c19Case) *Violation {
 			}
 		}
 		Ev.Class("mode:metastore-held-metadata")
+	case "postmerge":
+		// Merge two healthy files first (the second has one partition more, so one
+		// of its blocks has no partner and is copied verbatim), THEN corrupt the
+		// merge output: what a merge writes must be as well protected as a flush
+		c2 := c
+		c2.Parts = c.Parts + 1
+		f2, v := buildValidFile(c2, ds, ms, 1000)
+		if v != nil {
+			return v
+		}
+		all := map[string]int{}
+		for k, n := range f.rows {
+			all[k] += n
+		}
+		for k, n := range f2.rows {
+			all[k] += n
+		}
+		cfg := bs.DefaultBloomSearchEngineConfig()
+		cfg.RowDataCompression = bs.CompressionType(c.Comp)
+		meng, err := bs.NewBloomSearchEngine(cfg, ms, ds)
+		if err != nil {
+			return violf("engine: %v", err)
+		}
+		if _, err := meng.Merge(context.Background()); err != nil {
+			return violf("merge of two healthy files failed: %v", err)
+		}
+		var merged *c19File
+		for mf, err := range ms.GetMaybeFilesForQuery(context.Background(), nil) {
+			if err != nil {
+				continue
+			}
+			raw, ok := ds.Get(string(mf.PointerBytes))
+			if !ok {
+				continue
+			}
+			rf, err := refReadFile(raw, true)
+			if err != nil {
+				return violf("merge output does not parse: %v", err)
+			}
+			merged = &c19File{raw: raw, ref: rf, meta: mf.Metadata, ptr: string(mf.PointerBytes), rows: all}
+		}
+		if merged == nil || len(c.Muts) == 0 {
+			break
+		}
+		mcorrupt := applyMuts(merged, c.Muts)
+		if bytes.Equal(mcorrupt, merged.raw) {
+			break
+		}
+		if v := exerciseHelpers(mcorrupt, merged, what+" [merge output]"); v != nil {
+			return v
+		}
+		ds.Put(merged.ptr, mcorrupt)
+		qeng, err := bs.NewBloomSearchEngine(bs.DefaultBloomSearchEngineConfig(), ms, ds)
+		if err != nil {
+			return violf("engine: %v", err)
+		}
+		for qi, q := range c19Queries() {
+			out, v := c19RunQuery(qeng, q)
+			if v != nil {
+				return v
+			}
+			if v := checkRowsWritten(out, all, what+" [applied to the merge output; metadata held by the MetaStore]"); v != nil {
+				return v
+			}
+			if out.err == nil && len(out.rows) != len(f.order)+len(f2.order) {
+				return violf("query %d over a corrupted merge output finished with Err=nil but returned %d of the %d written rows (%s)", qi, len(out.rows), len(f.order)+len(f2.order), what)
+			}
+		}
+		Ev.Class("mode:corrupted-merge-output")
 	case "merge":
 		// a second valid file, then Merge with the first one corrupted
 		f2, v := buildValidFile(c, ds, ms, 1000)
@@ -615,7 +684,7 @@ func runC19(c c19Case) *Violation {
 }
 
 func TestC19(t *testing.T) {
-	Ev.Rule = "case = engine-written file (1-8 generated rows, 1-3 blocks, none/snappy/zstd) + either 1-3 byte mutations (bit flip, burst, zero fill, truncation, extension, splice) targeted at footer / metadata JSON / file-level filter section / block filter region / row data, or 1-2 framing fields (region offset/size, file filter size, block row-data offset/size, filter offset/size) set to hostile values (-1, 0, +-1 around the current value and the file size, 2^31, 2^32, 2^40, MaxInt64, MaxInt64-cur(+1), MinInt64) and re-framed with a correct CRC by the harness's own footer writer. Oracle: no panic; TotalAlloc of each helper call <= 16*fileSize + 4 MiB (+ declared uncompressed sizes); accepted metadata is in bounds; queries (filesystem store = metadata from the file; MemoryMetaStore holding the original metadata; after a Merge over the corrupted source) return only rows that were written, and with MetaStore-held metadata either the exact answer or a non-nil Err. metahostile phase: 2-4 healthy files, the MetaStore holding a hostile filter section extent (offset / size of one block's section) for one of them, queries on a budget of 1-8 workers: no panic, only written rows, exact answer or error. transplant phase: a block's row data replaced by a complete valid compressed stream of identical compressed and uncompressed size (byte-wise isomorphic rows written to a different store), in the MetaStore-held, filesystem and merge modes: never a row that was not written to this store, and exact answer or error. Non-trivial: the bytes changed and (the footer still parses, or the independent reader detects the damage in row data / a filter section); distinct by hash(mutation, compression, size, mode)."
+	Ev.Rule = "case = engine-written file (1-8 generated rows, 1-3 blocks, none/snappy/zstd) + either 1-3 byte mutations (bit flip, burst, zero fill, truncation, extension, splice) targeted at footer / metadata JSON / file-level filter section / block filter region / row data, or 1-2 framing fields (region offset/size, file filter size, block row-data offset/size, filter offset/size) set to hostile values (-1, 0, +-1 around the current value and the file size, 2^31, 2^32, 2^40, MaxInt64, MaxInt64-cur(+1), MinInt64) and re-framed with a correct CRC by the harness's own footer writer. Oracle: no panic; TotalAlloc of each helper call <= 16*fileSize + 4 MiB (+ declared uncompressed sizes); accepted metadata is in bounds; queries (corruption applied to the output of a merge that copied one block verbatim; filesystem store = metadata from the file; MemoryMetaStore holding the original metadata; after a Merge over the corrupted source) return only rows that were written, and with MetaStore-held metadata either the exact answer or a non-nil Err. metahostile phase: 2-4 healthy files, the MetaStore holding a hostile filter section extent (offset / size of one block's section) for one of them, queries on a budget of 1-8 workers: no panic, only written rows, exact answer or error. transplant phase: a block's row data replaced by a complete valid compressed stream of identical compressed and uncompressed size (byte-wise isomorphic rows written to a different store), in the MetaStore-held, filesystem and merge modes: never a row that was not written to this store, and exact answer or error. Non-trivial: the bytes changed and (the footer still parses, or the independent reader detects the damage in row data / a filter section); distinct by hash(mutation, compression, size, mode)."
 	Ev.Assumptions = []string{"rows returned are compared with written rows through a JSON round trip", "allocation is measured with runtime.MemStats.TotalAlloc around single-goroutine helper calls"}
 	runChecks(t, "corrupt", 3000, 150000, genC19(), runC19)
 	runChecks(t, "transplant", 300, 10000, genC19Transplant(), runC19Transplant)
